@@ -19,11 +19,12 @@
 
    What is NOT proved here (checked only by the correspondence run and the
    judge, see docs/C06.md "missing"): the non-SAME <-> differ equivalence for
-   the identity-key modes --aoh key|deep and for configurations that mix
-   modes per path ([rules]); truthfulness outside positional comparison. *)
+   configurations that mix modes per path ([rules]) or configure identity
+   keys ([keys]), and for --arrays value combined with --aoh key|deep;
+   truthfulness outside positional comparison. *)
 From Coq Require Import List Ascii String ZArith NArith Bool Arith Permutation.
 From YP Require Import Outcome PyStr PyVal Doc Diff C06Spec DiffBase DiffPos DiffTotal DiffSync DiffEq
-  DiffKeys DiffCover DiffAcct DiffSym DiffIff.
+  DiffKeys DiffCover DiffAcct DiffSym DiffKSync DiffIff DiffIffKey.
 Import ListNotations.
 Open Scope string_scope.
 
@@ -160,8 +161,8 @@ Print Assumptions C06_faces_guard_sound.
    --aoh value) a sequence is a bag of its elements.  All document pairs,
    every uniform pair of options --arrays position|value x --aoh
    position|dpos|value, any YAMLPath.__eq__ in the pop step.  Guard: no
-   explicit YAML tags (finding F1).  The identity-key modes are not covered
-   (finding F4 refutes their reflexivity, below). ---- *)
+   explicit YAML tags (finding F1).  The identity-key modes follow below
+   (they need the guard of finding F4). ---- *)
 Theorem C06_nonsame_iff_differ_partial :
   forall path_eq cfg am hm L R es,
     uniform cfg am hm -> unkeyed hm = true ->
@@ -207,6 +208,42 @@ Theorem C06_equal_no_difference_partial :
     compare_to path_eq cfg L R = Ok es -> shows_difference es = false.
 Proof. exact equal_no_difference. Qed.
 Print Assumptions C06_equal_no_difference_partial.
+
+(* ---- the identity-key modes: --arrays position with --aoh key | deep, no
+   [keys] configuration.  [equiv] reads every Array-of-Hashes as a bag of
+   records named by the identity key (the first key of the first right-hand
+   record): as many records, and every left record has a right record with the
+   same identity value that is equal (key) / equivalent (deep).  Guard
+   [kguard] (finding F4): every list pair the comparison reads by identity key
+   is well keyed -- all elements of both lists are records holding a scalar
+   under the identity key, pairwise different -- checked along the pairing the
+   modes define. ---- *)
+Theorem C06_nonsame_iff_differ_keyed_partial :
+  forall path_eq cfg hm L R es,
+    uniform cfg ArrPosition hm -> hm = AohKey \/ hm = AohDeep -> c_keys cfg = [] ->
+    wf_doc L = true -> wf_doc R = true -> untagged L = true -> untagged R = true ->
+    kguard hm L R = true ->
+    compare_to path_eq cfg L R = Ok es ->
+    shows_difference es = negb (equiv ArrPosition hm L R).
+Proof. exact nonsame_iff_differ_keyed. Qed.
+Print Assumptions C06_nonsame_iff_differ_keyed_partial.
+
+Theorem C06_reflexive_keyed_partial :
+  forall path_eq cfg hm L es,
+    uniform cfg ArrPosition hm -> hm = AohKey \/ hm = AohDeep -> c_keys cfg = [] ->
+    wf_doc L = true -> untagged L = true -> kguard hm L L = true ->
+    compare_to path_eq cfg L L = Ok es -> shows_difference es = false.
+Proof. exact reflexive_keyed. Qed.
+Print Assumptions C06_reflexive_keyed_partial.
+
+(* without a [keys] table synchronize_lods_by_key is the plain match by identity
+   value, and each of its tuples is a matched pair, a left-only or a right-only record *)
+Theorem C06_sync_key_shape :
+  forall idf lhs red,
+    nodup_vals (map (ida idf) lhs) = true -> nodup_vals (map (ida idf) red) = true ->
+    forall p, In p (ksync idf lhs red) -> shape idf lhs red p.
+Proof. exact ksync_shape. Qed.
+Print Assumptions C06_sync_key_shape.
 
 (* --aoh key: a record without the identity key makes a list differ from itself (F4) *)
 Theorem C06_reflexive_refuted :
@@ -357,4 +394,26 @@ Example C06_iff_value_example :
   data_eq L R = false /\ equiv ArrValue AohValue L R = true /\
   omap shows_difference (compare_to path_eq_real (cfg_of "value" "value") L R) = Ok false /\
   omap shows_difference (compare_to path_eq_real dflt L R) = Ok true.
+Proof. vm_compute. repeat split; reflexivity. Qed.
+
+(* identity-key modes: the guard holds of a non-trivial pair (records reordered,
+   one changed, a nested keyed list), and the model agrees with the equivalence *)
+Example uniform_key : uniform (cfg_of "position" "key") ArrPosition AohKey /\ c_keys (cfg_of "position" "key") = [].
+Proof. split; [split; intros nc; reflexivity | reflexivity]. Qed.
+Example uniform_deep : uniform (cfg_of "position" "deep") ArrPosition AohDeep /\ c_keys (cfg_of "position" "deep") = [].
+Proof. split; [split; intros nc; reflexivity | reflexivity]. Qed.
+
+Example C06_keyed_guard_example :
+  let rcd o i v sub := mp o [(lf 2 (PStr "id"), lf (o + 1)%N (PInt i)); (lf 4 (PStr "v"), lf (o + 2)%N (PStr v));
+                             (lf 5 (PStr "sub"), sq (o + 3)%N sub)] in
+  let s1 := mp 50 [(lf 51 (PStr "n"), lf 52 (PStr "p"))] in
+  let s2 := mp 53 [(lf 51 (PStr "n"), lf 54 (PStr "q"))] in
+  let L := mp 0 [(lf 1 (PStr "r"), sq 10 [rcd 20%N 1%Z "w" [s1; s2]; rcd 30%N 2%Z "x" []])] in
+  let R := mp 6 [(lf 1 (PStr "r"), sq 11 [rcd 40%N 2%Z "x" []; rcd 60%N 1%Z "w" [s2; s1]])] in
+  wf_doc L = true /\ wf_doc R = true /\ untagged L = true /\ untagged R = true /\
+  kguard AohDeep L R = true /\ kguard AohKey L R = true /\
+  data_eq L R = false /\
+  equiv ArrPosition AohDeep L R = true /\ equiv ArrPosition AohKey L R = false /\
+  omap shows_difference (compare_to path_eq_real (cfg_of "position" "deep") L R) = Ok false /\
+  omap shows_difference (compare_to path_eq_real (cfg_of "position" "key") L R) = Ok true.
 Proof. vm_compute. repeat split; reflexivity. Qed.
